@@ -60,6 +60,9 @@ type c03ctx struct {
 	// from then on `gm` runs the normalisation through the hook instead of GetMergeCells (which reads the
 	// anchors formatted), so that the stored texts stay what the writes put there.
 	unstable bool
+	// styles (GetCellStyle, a pure getter since the C04 fix) of the watched positions at the last two observations
+	prevSty, lastSty map[c03pos]int
+	styleTargets     []c03pos // positions whose style the current op may change
 }
 
 var c03stableCache = map[string]bool{}
@@ -91,7 +94,19 @@ func c03name(c, r int) string {
 	return n
 }
 
-func c03tokS(s string) string { return "S" + hx(s) }
+// c03tokS: token of a plain shared string item. The table stores the basic-string-escaped text
+// (bstrMarshal: `_xHHHH_` look-alikes and characters not permitted in XML 1.0 are escaped); the escaping
+// itself is C01's subject, so the token is predicted with the hook and the read-back oracle demands the
+// verbatim text.
+func c03tokS(s string) string { return "S" + hx(xl.VerifBstrMarshal(c03trunc(s))) }
+
+// c03untokS recovers the text written from a shared-string token (S… / R…)
+func c03untokS(tok string) string {
+	if len(tok) == 0 {
+		return ""
+	}
+	return xl.VerifBstrUnmarshal(unhx(tok[1:]))
+}
 
 func c03trunc(s string) string {
 	if utf8.RuneCountInString(s) > xl.TotalCellChars {
@@ -176,8 +191,14 @@ func (cx *c03ctx) watch() []c03pos {
 // observe reads value (raw), type and formula of every watched position through the public API.
 func (cx *c03ctx) observe(ps []c03pos) map[c03pos]string {
 	m := make(map[c03pos]string, len(ps))
+	cx.prevSty, cx.lastSty = cx.lastSty, make(map[c03pos]int, len(ps))
 	for _, p := range ps {
 		n := c03name(p.c, p.r)
+		if id, err := cx.f.GetCellStyle(c03Sheet, n); err == nil {
+			cx.lastSty[p] = id
+		} else {
+			cx.lastSty[p] = -1
+		}
 		v, e1 := cx.f.GetCellValue(c03Sheet, n, xl.Options{RawCellValue: true})
 		t, e2 := cx.f.GetCellType(c03Sheet, n)
 		fm, e3 := cx.f.GetCellFormula(c03Sheet, n)
@@ -270,7 +291,7 @@ func (cx *c03ctx) setValue(cell string, v *c03val) string {
 	text := func() string { // the input text of str/dflt/rich ops
 		switch v.kind {
 		case "sst":
-			return unhx(v.a[1:])
+			return c03untokS(v.a)
 		case "tv":
 			return unhx(v.b)
 		case "num", "inl":
@@ -390,9 +411,7 @@ func c03parseVal(setterWord, kind, a, b string) *c03val {
 		}
 	case "str":
 		v.expectKind = "raw"
-		if len(a) > 0 {
-			v.expect = unhx(a[1:])
-		}
+		v.expect = c03untokS(a)
 	case "dflt":
 		v.expectKind = "raw"
 		if kind != "clr" {
@@ -400,9 +419,7 @@ func c03parseVal(setterWord, kind, a, b string) *c03val {
 		}
 	case "rich":
 		v.expectKind = "raw"
-		if len(a) > 0 {
-			v.expect = unhx(a[1:])
-		}
+		v.expect = c03untokS(a)
 	}
 	return v
 }
@@ -563,6 +580,7 @@ func (cx *c03ctx) exec(line string) {
 		w[5] = sid
 		ln := emit(strings.Join(w, " "), withDump(st))
 		if st == "ok" && ok {
+			cx.styleTargets = append(cx.anchors(c, ro), c03pos{c, ro})
 			cx.frameWrite(ln, ps, before, []c03pos{{c, ro}}, w[0])
 			if fm, _ := cx.f.GetCellFormula(c03Sheet, sp); fm != "" && c03canonical(sp, c, ro) {
 				r.Fail("lww:formula-survives:"+w[0], fmt.Sprintf("%s value written to %s but GetCellFormula still returns %q", w[0], sp, fm), ln, cx.replay())
@@ -608,18 +626,36 @@ func (cx *c03ctx) exec(line string) {
 		before := cx.observe(ps)
 		st := c03call(func() error { return cx.f.SetCellStyle(c03Sheet, s1, s2, id) })
 		ln := emit(line, withDump(st))
+		var block []c03pos
+		if st == "ok" && ok1 && ok2 {
+			for ro := min(r1, r2); ro <= max(r1, r2); ro++ {
+				for c := min(c1, c2); c <= max(c1, c2); c++ {
+					block = append(block, c03pos{c, ro})
+				}
+			}
+		}
+		cx.styleTargets = block
 		cx.frameWrite(ln, ps, before, nil, "sty")
+		for _, p := range block {
+			if got, ok := cx.lastSty[p]; ok && got != id {
+				r.Fail("lww:readback:style", fmt.Sprintf("SetCellStyle(%s,%s,%d) but GetCellStyle(%s) = %d", s1, s2, id, c03name(p.c, p.r), got), ln, cx.replay())
+			}
+		}
 	case "gsty":
 		sp, c, ro, ok := c03decode(w[1])
 		if ok {
 			cx.touch(c, ro)
 		}
 		var id int
+		d0 := cx.dump()
 		st := c03call(func() error { var e error; id, e = cx.f.GetCellStyle(c03Sheet, sp); return e })
 		if st == "ok" {
 			st = fmt.Sprintf("style %d", id)
 		}
-		emit(line, withDump(st))
+		ln := emit(line, withDump(st))
+		if d1 := cx.dump(); d1 != d0 {
+			r.Fail("getter:gsty-changes-grid", "GetCellStyle("+sp+") changed the stored worksheet", ln, cx.replay())
+		}
 	case "get":
 		sp := unhx(w[1])
 		var res string
@@ -636,7 +672,7 @@ func (cx *c03ctx) exec(line string) {
 		st := c03call(func() error { return cx.f.SetCellHyperLink(c03Sheet, sp, link, "Location") })
 		ln := emit(line, withDump(st))
 		cx.frameWrite(ln, ps, before, nil, "hl")
-		if st == "ok" && ok && sp == c03name(c, ro) { // GetCellHyperLink compares the raw spelling: other spellings are C20's finding
+		if st == "ok" && ok { // GetCellHyperLink normalises the spelling (C20 fixes): every accepted spelling must find the link
 			found, target, err := cx.f.GetCellHyperLink(c03Sheet, sp)
 			if err != nil || !found || target != link {
 				sig := "hyperlink:readback"
@@ -682,6 +718,7 @@ func (cx *c03ctx) exec(line string) {
 			q[1], q[3] = q[3], q[1]
 		}
 		after := cx.observe(ps)
+		cx.frameStyles(ln, ps, w[0])
 		if w[0] == "mrg" {
 			// "merging clears the non-anchor cells": reads inside the range are redirected, so the stored
 			// cells are inspected (internal dump): value, type, inline string and formula must be gone
@@ -734,6 +771,7 @@ func (cx *c03ctx) exec(line string) {
 		ln := emit(line, res)
 		refs, rep := c03dumpMerges(res)
 		cx.frameMerges(ln, ps, before, cx.observe(ps), rep, "gm")
+		cx.frameStyles(ln, ps, "gm")
 		if st == "ok" && !viaHook {
 			var api []string
 			for _, m := range got {
@@ -772,7 +810,7 @@ func (cx *c03ctx) exec(line string) {
 			case "bool":
 				vals = append(vals, unhx(v.b) == "1")
 			case "str":
-				vals = append(vals, unhx(v.a[1:]))
+				vals = append(vals, c03untokS(v.a))
 			default:
 				vals = append(vals, nil)
 			}
@@ -839,6 +877,7 @@ func (cx *c03ctx) exec(line string) {
 // frameWrite: after an op, every watched position outside the allowed targets (or their anchors) is unchanged.
 func (cx *c03ctx) frameWrite(ln int, ps []c03pos, before map[c03pos]string, targets []c03pos, what string) {
 	after := cx.observe(ps)
+	cx.frameStyles(ln, ps, strings.Fields(what)[0])
 	allowed := map[c03pos]bool{}
 	for _, t := range targets {
 		for _, a := range cx.anchors(t.c, t.r) {
@@ -863,6 +902,26 @@ func (cx *c03ctx) frameWrite(ln int, ps []c03pos, before map[c03pos]string, targ
 			continue
 		}
 		cx.r.Fail("frame:"+strings.Fields(what)[0]+"-changed-other-cell", fmt.Sprintf("%s changed %s: %s -> %s", what, c03name(p.c, p.r), before[p], after[p]), ln, cx.replay())
+	}
+}
+
+// frameStyles: the style of every watched position outside cx.styleTargets is what it was before the op
+// (GetCellStyle is not redirected, so this is a statement about the cells themselves).
+func (cx *c03ctx) frameStyles(ln int, ps []c03pos, what string) {
+	allowed := map[c03pos]bool{}
+	for _, t := range cx.styleTargets {
+		allowed[t] = true
+	}
+	cx.styleTargets = nil
+	if cx.prevSty == nil || cx.lastSty == nil {
+		return
+	}
+	for _, p := range ps {
+		b, ok1 := cx.prevSty[p]
+		a, ok2 := cx.lastSty[p]
+		if ok1 && ok2 && a != b && !allowed[p] {
+			cx.r.Fail("frame:"+what+"-changed-other-style", fmt.Sprintf("%s changed the style of %s: %d -> %d", what, c03name(p.c, p.r), b, a), ln, cx.replay())
+		}
 	}
 }
 
@@ -1035,7 +1094,7 @@ func (g *c03gen) pos(mode int) (int, int) {
 }
 
 var c03strings = []string{"", "a", "hello", " lead", "trail ", "tab\there", "line\nbreak", "<&>\"'", "ünï©ødé", "日本語", "1", "1.5", "TRUE", "=1+1",
-	"x_y", "_x", "x005F", "'quoted", "0012", "1e5", "  ", "\r\n"}
+	"x_y", "_x", "x005F", "'quoted", "0012", "1e5", "  ", "\r\n", "_x0041_", "_x005F_", "_x005F_x0041_", "a_x000D_b", "ctl\x01\x1f"}
 
 func (g *c03gen) payload() string {
 	rng := g.rng
@@ -1370,12 +1429,12 @@ var c03witnesses = [][]string{
 	{"new 1", "mrg C3 E5", "mrg B2 C3", "gm"},
 	{"new 1", "mrg B4 C5", "mrg C2 E4", "gm"},                             // cross
 	{"new 1", "mrg A2 C2", "unm B1 B3", "gm"},                                                // unmerge by a crossing range
-	{"new 2", "set str A1 sst S" + hx("anchor") + " ~", "set int B2 tv ~ " + hx("7"), "mrg A1 B2", "get B2", "set str b2 sst S" + hx("via b2") + " ~", "get A1", "obs 1 1 3 3"},
+	{"new 2", "set str A1 sst " + c03tokS("anchor") + " ~", "set int B2 tv ~ " + hx("7"), "mrg A1 B2", "get B2", "set str b2 sst " + c03tokS("via b2") + " ~", "get A1", "obs 1 1 3 3"},
 	{"new 1", "mrg A1 B2", "TIME B2", "gsty A1", "gsty B2"},                                  // date style lands on the raw cell
 	{"new 1", "mrg A1 B2", "hl B2 " + hx("Sheet1!C3")},                                       // hyperlink read is not redirected
 	{"new 1", "frm A1 " + hx("1+1"), "TIME A1", "frm B1 " + hx("2+2"), "set rich B1 sst R" + hx("rt") + " ~"},
-	{"new 1", "set str A1 sst S" + hx("_x0041_") + " ~"},                                           // C01's look-alike
-	{"new 1", "set str.x5 A1 sst S" + hx(strings.Repeat("y", 32767)) + " ~", "set str A2 sst S" + hx(strings.Repeat("é", 32767)) + " ~"},
+	{"new 1", "set str A1 sst " + c03tokS("_x0041_") + " ~", "set str A2 sst " + c03tokS("_x005F_x0041_") + " ~", "set str A3 sst " + c03tokS("a\x01b_x000D_") + " ~", "get A1", "get A2"},                                           // C01's look-alike
+	{"new 1", "set str.x5 A1 sst " + c03tokS(strings.Repeat("y", 32767)) + " ~", "set str A2 sst " + c03tokS(strings.Repeat("é", 32767)) + " ~"},
 	{"new 1", "set int XFD1048576 tv ~ " + hx("1"), "get XFD1048576", "get XFD1048575", "get A1", "set int A1048576 tv ~ " + hx("2"), "get A1048576"},
 	{"new 1", "set int XFE1 tv ~ " + hx("1"), "set int A1048577 tv ~ " + hx("1"), "set int A0 tv ~ " + hx("1"), "mrg A1 XFE2", "sty A1 A0 0", "get $A$1", "get A01", "frm 1A " + hx("1")},
 	{"new 1", "seq r XFC1 4 int.val tv ~ " + hx("1") + " int.val tv ~ " + hx("2") + " int.val tv ~ " + hx("3") + " int.val tv ~ " + hx("4")},
